@@ -82,12 +82,12 @@ def run(F, R, tier):
                 bad, _ = must_pass(F, arm["body"], tg, exit_kinds=("fallthrough", "return", "break", "continue"))
                 R.ob("C17-a", "%s arm clears %s on every path" % (name, fld), not bad, "a path through the %s arm leaves %s untouched" % (name, fld), where(arm["body"]))
             if name in ("Js", "Wasm"):
-                hd = [n for n in walk(arm["body"]) if n["k"] == "Call" and "f" in n and expr_text(n["f"]) == "handle_dependencies"]
+                hd = [n for n in walk(arm["body"]) if n["k"] == "Call" and "f" in n and any(y.get("k") == "Closure" and any(z.get("k") == "Assign" and peel(z["l"]).get("field") == "maybe_type" for z in walk(y)) for y in through_locals(peel(n["f"])))]
                 R.ob("C17-a", "%s arm prunes its dependencies" % name, len(hd) == 1, "handle_dependencies not called for %s modules" % name, where(arm["body"]))
         allv = {v["path"] for v in F.adt("graph::Module")["variants"]}
         R.ob("C17-a", "every module kind is handled explicitly", covered >= allv and not ca, "catch-all or missing module kind: a new kind with type data would be left unpruned", where(mm[0]))
     # the dependency closure clears both fields for every dependency, before queueing
-    hd = [n for n in pt["_nodes"] if n.get("k") == "LetStmt" and n["pat"].get("name") == "handle_dependencies"]
+    hd = [n for n in pt["_nodes"] if n.get("k") == "LetStmt" and "init" in n and peel(n["init"]).get("k") == "Closure" and any(z.get("k") == "Assign" and peel(z["l"]).get("field") == "maybe_type" for z in walk(n["init"]))]
     if R.ob("C17-a", "dependency pruning closure found", len(hd) == 1, "shape changed", pt["file"]):
         clo = peel(hd[0]["init"])
         fors = [n for n in walk(clo) if n["k"] == "For"]
@@ -152,5 +152,5 @@ def run(F, R, tier):
     spc = F.adt("collections::SeenPendingCollection")
     t = [F.types[f["ty"]] for f in spc["variants"][0]["fields"] if f["name"] == "inner"]
     R.ob("C17-b", "worklist is set-backed (each specifier processed once)", bool(t) and t[0].startswith("indexmap::IndexSet<"), "SeenPendingCollection.inner is %s" % t, spc["file"])
-    roots = [n for n in pt["_nodes"] if n.get("k") == "MethodCall" and n["name"] == "extend" and "roots" in expr_text(n)]
+    roots = [n for n in pt["_nodes"] if n.get("k") == "MethodCall" and n["name"] == "extend" and mentions_field(n, "roots", "graph::ModuleGraph")]
     R.ob("C17-b", "the walk starts from the graph's roots", len(roots) == 1, "roots not seeded", pt["file"])
